@@ -215,7 +215,11 @@ def check_text(ctx, text, family):
 
 
 _VALUES = ["v", "", "a$$b", "$$", "<x>", "%define a b", "#c", "(p)", "a  b",
-           "</a>", "x/", "é ü", "$$$$x", "v"]
+           "</a>", "x/", "é ü", "$$$$x", "v",
+           # characters other line splitters treat as line ends; only "\n"
+           # ends a line of configuration text
+           "first\x0csecond", "a\u2028b", "a\x85b c", "x\ry", "p\x0bq",
+           "a\x1cb\x1dc\x1ed", "u\u2029v"]
 _KEYS = ["k", "K", "key-1", "a.b", "k", "zz", "a#b", "k/"]
 _HTOK = ["a", "A", "sec", "a/", "a>", "x/y", "b//", ">", "/"]
 
